@@ -6,6 +6,7 @@ import GoProbeModel.Spec.C16
 import GoProbeModel.Spec.C14
 import GoProbeModel.Spec.C23
 import GoProbeModel.Spec.C17
+import GoProbeModel.Spec.C12
 
 /-!
 `gpjudge`: executable specs. Reads lines `<Cxx> <case fields…> => <implementation output>` and
@@ -19,5 +20,6 @@ def main : IO Unit := DriverLoop.runJudge [
   ("C16", C16.judge),
   ("C14", C14.judge),
   ("C23", C23.judge),
-  ("C17", C17.judge)
+  ("C17", C17.judge),
+  ("C12", C12.judge)
 ]
